@@ -1,6 +1,6 @@
 """C08 - module mode: the trait's methods are exactly the module's non-private functions.
 
-State = (module item word over the 24-symbol alphabet, requested trait visibility).
+State = (module item word over the 30-symbol alphabet, requested trait visibility).
 Model = filter(visible fn with a body) in source order - nothing else.
 Impl  = (a) method list of the generated trait in the recorded expansion (proves exactly-these, in order),
         (b) for words that can compile: a client in the parent scope (and, for pub / pub(crate), at crate
@@ -13,8 +13,12 @@ VIS = ["", "pub", "pub(crate)"]
 
 
 def enumerate_states(tier):
-    maxlen = 4 if tier == "thorough" else 3
-    words, transitions = common.words(gen.MOD_ITEM_ORDER, maxlen)
+    full_len, core_len = (3, 4) if tier == "thorough" else (2, 3)
+    words, transitions = common.words(gen.MOD_ITEM_ORDER, full_len)
+    core_words, t2 = common.words(gen.MOD_ITEM_CORE, core_len)
+    seen = set(words)
+    words += [w for w in core_words if w not in seen]
+    transitions += t2
     states = []
     for w in words:
         for vi, vis in enumerate(VIS):
@@ -22,7 +26,8 @@ def enumerate_states(tier):
                 continue
             states.append(dict(key="m%d_%s" % (vi, "_".join(w) or "empty"), items=list(w), vis=vis))
     transitions += sum(2 for w in words if len(w) <= 2)  # 'change requested visibility' edges
-    return states, transitions, dict(item_alphabet=len(gen.MOD_ITEM_ORDER), word_len=maxlen, vis_on_words_le=2)
+    return states, transitions, dict(item_alphabet=len(gen.MOD_ITEM_ORDER), word_len_full_alphabet=full_len,
+                                     core_alphabet=len(gen.MOD_ITEM_CORE), word_len_core_alphabet=core_len, vis_on_words_le=2)
 
 
 def compilable(s):
